@@ -299,6 +299,15 @@ def gen(rng, tier):
         b = list(a)
         b[i], b[j] = b[j], b[i]
         cases.append({"f": a, "t": b, "opts": rng.choice(OPT_SETS)})
+    # ... and swaps of two EMPTY values of different kinds (an empty list is not an empty mapping, string, null, 0 or false):
+    # every container-level shortcut on emptiness / size 0 has to keep them apart
+    empties = [[], {}, "", None, 0, False]
+    ke = 0
+    for x in range(len(empties)):
+        for y in range(x + 1, len(empties)):
+            for wrap in (lambda u, v: [u, v], lambda u, v: [1, u, "a", v], lambda u, v: {"k": [u, v, 2]}):
+                cases.append({"f": wrap(empties[x], empties[y]), "t": wrap(empties[y], empties[x]), "opts": OPT_SETS[ke % len(OPT_SETS)]})
+                ke += 1
     # equal documents (possibly key-permuted)
     for _ in range(n // 6):
         a = gen_doc(rng)
